@@ -7,7 +7,8 @@ from . import facts as F
 from .core import Ctx
 from .facts import ARRAY, callee, resolved, strip, peel, walk, walk_ctx, loc, field_chain, var_of, lit_value
 from .repr_rules import MUTATING, self_var, param_vars
-from .engine_rules import engine_bodies, closure_tail
+from .pass_rules import engine_bodies, closure_tail
+from .inline import engine_view
 from .show import show
 
 IT = "core::iter::traits::iterator::Iterator::"
@@ -92,6 +93,7 @@ def _value_reads(facts, e, seen=None):
 def r26_engine_control(facts):
     """R26: branch conditions of the engine read flags, counters, presence and shapes — never array values."""
     c = Ctx("R26", facts, "the engine's control flow does not depend on adjoint values")
+    facts = engine_view(facts)
     eng = engine_bodies(facts)
     c.floor("engine bodies", len(eng), 2)
     n_cond = 0
@@ -164,8 +166,13 @@ def r22_update_alignment(facts):
     for u in impls:
         root = strip(facts.root(u))
         pv = [v for v, _, ty, _ in param_vars(facts, u) if "alloc::vec::Vec<&mut corgi::array::Array>" in ty]
-        if not pv or root.get("k") != "Block":
-            c.unk("update:%s" % u["def"], loc(u, root), "parameter list / body shape not recognised")
+        if not pv:
+            c.unk("update:%s" % u["def"], loc(u, root), "parameter list not recognised")
+            continue
+        if root.get("k") != "Block":
+            # the body is a single expression (e.g. one loop over the parameters): buffers that live
+            # across traversals would have to be declared at the top level, and there is none
+            c.ok("update:%s" % u["def"], loc(u, root), "no cross-traversal buffers: nothing to align", nontrivial=False)
             continue
         params = pv[0]
         # local vectors
